@@ -172,9 +172,31 @@ def check_sequence(ctx, sig, existing, seq, model_out, witnesses):
     reuse = name_reuse(seq)
     regroup = touches_renamed_model(seq)
 
+    def model_predicts_difference():
+        """does the Lean model of `simulate`, run on the sequence and on the optimised list, also end in two
+        different outcomes?  Only then do the optimiser findings (F20/F24/F60) explain what was observed."""
+        if not ctx.driver or 'out' not in r1:
+            return True
+        flags = {'rename_app_label_fixed': bool(ctx.variant.get('rename_app_label_fixed'))}
+        base = {'op': 'simulate', 'sig': sigs.abs_sig(sig), 'ctx': {'app': 'vapp'}, 'flags': flags}
+        a, b = ctx.driver.ask([dict(base, mutations=[optrig.norm_mut(m) for m in orig]),
+                               dict(base, mutations=[optrig.norm_mut(m) for m in r1['out']])])
+        if a is None or b is None:
+            return True
+        if ('ok' in a) != ('ok' in b):
+            return True
+        if 'ok' not in a:
+            return a.get('err') != b.get('err')
+        return sigs.norm_sig(a['ok'], True, True) != sigs.norm_sig(b['ok'], True, True)
+
     def known_or_fail(what, observed):
         r = dict(rep, observed=observed)
-        if agree and reuse:
+        if 'err' not in r1 and not model_predicts_difference():
+            # the optimiser did what its model does, and by the model of `simulate` that is harmless here: the
+            # difference comes from somewhere else
+            ctx.fail(None, what + ' (not explained by the optimiser: the model of simulate gives the same outcome '
+                     'for the sequence and for the optimised list)', r)
+        elif agree and reuse:
             if witnesses.get(F_REUSE) is None or len(seq) < len(witnesses[F_REUSE]['mutations']):
                 witnesses[F_REUSE] = r
         elif agree and regroup:
@@ -365,6 +387,23 @@ def run(ctx):
         ctx.count('len=%d' % min(len(s), 8))
         if 'arr' in real[0]:
             rewritten_of[i] = [optrig.norm_mut(x) for x in real[0]['arr']] != [sigs.model_mutation(m) for m in s]
+    # ---- the same question on a legacy start signature (unique_together listed but never applied): signature
+    # level only, every applicable sequence up to length 2 plus a sample of longer ones
+    lspec = optrig.legacy_spec()
+    lsig = sigs.sig_from_spec(lspec)
+    lalpha = [m for m in optrig.alphabet(small=True) if not (m['t'] == 'ChangeMeta' and m['model'] == 'Alpha')] + \
+        [{'t': 'ChangeMeta', 'model': 'Alpha', 'prop': 'unique_together', 'py_value': [('a', 'b')]}]
+    lseqs = list(optrig.valid_sequences(lsig, lalpha, 2))
+    for _ in range(150 if quick else 3000):
+        lseqs.append(optrig.random_sequence(ctx.rng, lsig, lalpha, ctx.rng.randint(3, 6)))
+    lreqs = [{'op': 'optimize', 'existing': existing, 'copies': copies,
+              'mutations': [sigs.model_mutation(m) for m in s]} for s in lseqs]
+    louts = ctx.driver.ask(lreqs) if ctx.driver else [None] * len(lseqs)
+    for s, o in zip(lseqs, louts):
+        check_sequence(ctx, lsig, existing, s, o, witnesses)
+        ctx.case({'legacy_start': True, 'mutations': [sigs.model_mutation(m) for m in s]}, nontrivial=len(s) >= 2,
+                 sample_cap=2)
+        ctx.count('legacy_start:len=%d' % min(len(s), 6))
     # ---- database level: a sample, biased towards sequences in which the optimiser acts ------
     idx = list(range(len(seqs)))
     ctx.rng.shuffle(idx)
